@@ -1058,6 +1058,8 @@ func main() {
 			}
 		case "script":
 			err = runScript(rc, dir, rng, *script, *scriptCfg)
+		case "shrinksnap": // C06: snapshots / compactions around shrinks, every TXID restored both ways
+			err = runC02ShrinkSnapshot(rc, dir, rng)
 		case "c02":
 			if i%6 == 5 {
 				err = runC02ShrinkSnapshot(rc, dir, rng)
